@@ -330,6 +330,21 @@ def run(chk):
         else:
             chk.violation("C07.wake.reserve", call, K.short(call), "a reservation that _available_connections() subtracts until the waiter resumes",
                           "the freed slot is announced to a waiter but stays visible as free: a task that re-enters connect() before the woken task runs (a loop of back-to-back requests on limit=1) takes it through the pool fast path, the waiter finds nothing, queues again and can starve until its timeout")
+    # a waiter future taken from the queues may already be done (its task was cancelled / timed out and has not run its `finally` yet):
+    # cancel() is harmless then, set_result()/set_exception() raise InvalidStateError - out of close() that leaves every waiter behind it blocked
+    nfut = 0
+    for m in repo.cls(MOD, CLS).methods.values():
+        for c in prog.calls_in(m.node):
+            if not (isinstance(c.func, ast.Attribute) and c.func.attr in ("set_result", "set_exception") and isinstance(c.func.value, ast.Name)):
+                continue
+            nfut += 1
+            f_ = c.func.value.id
+            if PC.has_lit(PC.pc(c, raw=True), [(f"{f_}.done()", False), (f"not {f_}.done()", True)], True) is not None:
+                chk.ok("C07.wake.done", c, f"{m.name}(): `{K.short(c, 40)}` only on a future that is not done")
+            else:
+                chk.violation("C07.wake.done", c, K.short(c, 60), f"if not {f_}.done(): ...  (or {f_}.cancel(), which is harmless on a finished future)",
+                              f"{m.name}() calls {c.func.attr}() on a queued waiter without testing done(): a waiter whose task was just cancelled (task.cancel() cancels the future at once, the task removes it from the queue only on a later tick) raises InvalidStateError - from close() that skips the remaining waiters and `_waiters.clear()`, and the requests queued behind it wait for ever on a closed connector")
+    chk.expect_count("C07.wake.done", nfut, 1, "set_result / set_exception calls on futures in BaseConnector")
     # ---- C07.handoff / C07.waiterfinally / C07.stalealias ------------------------------------------------
     aw = [a for a in prog.awaits_in(wait.node) if isinstance(a.value, ast.Name)]
     futs = {a.value.id for a in aw}
